@@ -134,6 +134,11 @@ func (n *Node) processSyncRequest(rpc net.RPC, cmd *net.SyncRequest) {
 
 		//select min(cmd.SyncLimit, this.SyncLimit) events
 		limit := min(cmd.SyncLimit, n.conf.SyncLimit)
+		if limit < 0 {
+			// a negative limit (from the request or the configuration)
+			// selects no events instead of slicing out of bounds
+			limit = 0
+		}
 
 		n.logger.WithFields(logrus.Fields{
 			"req.sync_limit": cmd.SyncLimit,
